@@ -313,6 +313,19 @@ func (c *Ctx) r192(hasPerm, withPerm *ssa.Function) {
 		}
 	})
 	c.check(storesParam, rule, "WithPerm: attached value", c.P.pos(withPerm.Pos()), "attaches exactly its perms argument to a child of its ctx argument", "WithPerm does not attach exactly the given permission slice to the given context")
+	// … on every path: a set that is attached must be found attached, even when it is empty
+	// (returning the context unchanged for an empty set hands the caller the defaults)
+	allInstrs(withPerm, func(in ssa.Instruction) {
+		rt, ok := in.(*ssa.Return)
+		if !ok || len(rt.Results) != 1 {
+			return
+		}
+		good := c.allOrigins(blockLocalValue(rt.Results[0]), func(a apath) bool {
+			call, ok := a.Root.(*ssa.Call)
+			return ok && len(a.Fields) == 0 && calleeName(call) == "context.WithValue"
+		})
+		c.check(good, rule, "WithPerm: returned context", c.ipos(rt), "always the context carrying the set", "WithPerm can return a context that does not carry the given set (e.g. unchanged when the set is empty): HasPerm then falls back to the defaults, so a caller verified with no permissions gets the default ones")
+	})
 
 	// the searched slice: every `return true` must be under elem == perm with elem from slice S;
 	// S must be phi(attached [ok true], defaults [ok false])
